@@ -163,7 +163,7 @@ def _wrap_vle():
         vrec = _VREC
         if vrec is None: return vle_orig(self, **kw)
         saved, _REC = _REC, None            # solver calls inside the flash belong to the flash
-        spec = {k: float(v) for k, v in kw.items() if v is not None and k in ('T', 'P', 'H')}
+        spec = {k: (float(v) if k in ('T', 'P', 'H') else 0.0) for k, v in kw.items() if v is not None}
         try:
             r = vle_orig(self, **kw)
         except Exception as e:
@@ -550,6 +550,14 @@ def run_ops(ops):
             vrec = []; _VREC = vrec
             out = 'ok'
             Fin = sum(float(i.F_mol) for i in streams)
+            snap = None
+            if vle and eb and len(streams) >= 2:
+                snap = {}
+                for i in streams:
+                    for ph in (i.phases if is_multi(i) else (i.phase,)):
+                        row = i.imol[ph] if is_multi(i) else i.mol
+                        arr = row.to_array() if hasattr(row, 'to_array') else list(row)
+                        snap[ph] = [x + y for x, y in zip(snap.get(ph, [0.0] * len(arr)), arr)]
             ref_err = False
             Ts0 = streams[0].T if streams else None
             try:
@@ -575,8 +583,8 @@ def run_ops(ops):
                 v = vrec[-1]
                 vres = f'ok:{fbits(v[2])}:{chars(v[3])}' if v[0] == 'ok' else 'ex'
                 sp = v[1]
-                if 'H' in sp and 'P' in sp: vs = f'H:{fbits(sp["H"])}:{fbits(sp["P"])}'
-                elif 'T' in sp and 'P' in sp: vs = f'T:{fbits(sp["T"])}:{fbits(sp["P"])}'
+                if set(sp) == {'H', 'P'}: vs = f'H:{fbits(sp["H"])}:{fbits(sp["P"])}'
+                elif set(sp) == {'T', 'P'}: vs = f'T:{fbits(sp["T"])}:{fbits(sp["P"])}'
                 else:
                     vs = '-'
                     fail('mix:vle-spec', f'mix_from asked the flash for {sorted(sp)} (expected H, P with the energy balance, T, P without)')
@@ -649,7 +657,7 @@ def run_ops(ops):
                     fail('mix:material' + (':alias-fallback' if refallback else ''),
                          f'receiver holds {float(recv.F_mol)!r} kmol/hr, the non-empty inlets {Fin!r}'
                          + (' (receiver among the inlets, first assignment raised, the fallback mixed the material again)' if refallback else ''))
-            elif N >= 1 and mode != 'huge' and not ref_err:
+            elif N >= 1 and mode != 'huge':
                 # raised although the heat input is moderate: is the target inside the range of the models?
                 if lo == lo and hi == hi and lo <= expected <= hi:
                     # where would the balance put the mixture?  (bisection on the inlets' own enthalpy functions)
@@ -664,6 +672,25 @@ def run_ops(ops):
                         fail('set:raised:far-start', f'mix_from raised: the receiver starts at T = {T0r!r}, the balance puts the '
                                                      f'mixture at about {a_!r} K, more than 100 K away')
                         continue
+                    if vx and snap is not None and set(snap) <= set('gl') and set(vrec[-1][1]) == {'H', 'P'}:
+                        # the flash raised.  Is that mix_from's doing?  The same flash — the inlets' material by phase, the
+                        # enthalpy Σ inlet.H + Q, the lowest pressure — is run on a stream of its own: if it raises there
+                        # too, the flash fails by itself on this input (its contract, C04), not the mixing
+                        alone = None
+                        try:
+                            f_ = tmo.MultiStream(None, phases=('g', 'l'), T=T0r, P=min(Ps))
+                            for ph, arr in snap.items(): f_.imol[ph] = arr
+                            f_.vle(H=expected, P=min(Ps)); alone = True
+                        except Exception:
+                            alone = False
+                        if alone is True and ref_err:
+                            continue        # numba / fork artefact inside this one flash call: no verdict
+                        if alone is False:
+                            fail('mix:raised:flash-fails-standalone',
+                                 f'mix_from(vle=True) raised inside stream.vle(H={expected!r}, P={min(Ps)!r}); the same flash on a fresh '
+                                 f'MultiStream holding the inlets\' material raises as well')
+                            continue
+                    if ref_err: continue            # `ReferenceError: underlying object has vanished` (numba cache / fork), not judged
                     fail('mix:raised', f'mix_from raised although Σ inlet.H + Q = {expected!r} lies between Σ H(250 K) = {lo!r} '
                                        f'and Σ H(500 K) = {hi!r} of the inlets\' material')
         elif op in ('sep', 'isub'):
